@@ -640,11 +640,26 @@ def check_cutoff(run, pkg, name, typed):
     want = [("bin", "-", ("sub", ("attr", sel_term, "shape"), C(0)), C(1)), ("bin", "-", ("call", "builtins.len", (sel_term,), ()), C(1)),
             ("bin", "-", ("attr", sel_term, "size"), C(1)),
             ("sub", ("attr", lst, "shape"), C(0)), ("call", "builtins.len", (lst,), ()), ("attr", lst, "size")] if sel_term else []
-    cn_in = cn_t[2][0] if (cn_t[0] == "call" and cn_t[1] == "builtins.int" and len(cn_t[2]) == 1) else cn_t
+    from ..vg import subst as _subst
+
+    def _noint(t):
+        # int(...) / builtins.int around a count keeps its value
+        prev = None
+        while prev != t:
+            prev, t = t, _subst(t, lambda x: x[2][0] if (x[0] == "call" and x[1] == "builtins.int" and len(x[2]) == 1 and not x[3]) else None)
+        return t
+    cn_in = _noint(cn_t)
     okcn = None
     if sel_term is not None:
         # ... or sum of the mask - 1
-        okcn = eqv(cn_in, *want, ("bin", "-", ("call", ".sum", (mask,), ()), C(1)), ("bin", "-", ("call", "numpy.count_nonzero", (mask,), ()), C(1)), same=True)
+        forms = list(want) + [("bin", "-", ("call", ".sum", (mask,), ()), C(1)), ("bin", "-", ("call", "numpy.count_nonzero", (mask,), ()), C(1))]
+        okcn = True if any(eqv(cn_in, f) is True for f in forms) else None
+        if okcn is None:
+            # definitely another count: the size of the selection with no / another correction for the particle itself
+            sizes = [("sub", ("attr", sel_term, "shape"), C(0)), ("call", "builtins.len", (sel_term,), ()), ("attr", sel_term, "size"),
+                     ("call", ".sum", (mask,), ()), ("call", "numpy.count_nonzero", (mask,), ())]
+            if any(eqv(cn_in, z) is True for z in sizes) or any(eqv(cn_in, ("bin", "-", z, C(2))) is True or eqv(cn_in, ("bin", "+", z, C(1))) is True for z in sizes):
+                okcn = False
     run.ob("R-PROTO", fq, "row:cn", okcn, "the cn field equals the number of ids on the line (selected particles minus the particle itself)", show(cn_t)[:80],
            witness=None if okcn else "cn differs from the number of ids that follow: the reader slices item[2:cn+2] and mis-sizes the row", loc=loc, sound=True)
     first_row = min(w.seq for w in rows)
